@@ -373,13 +373,14 @@ def run(ctx, ck):
     ck.rule('R-CACHE.local-memo', 'a local memo dictionary of a writer is keyed by everything its value is computed from')
     from ..rules import local_memo_hazards
     n_lm = 0
-    for g_ in m.all_funcs():
+    from ..rules import writer_functions as _wf
+    for g_ in _wf(ctx, ('as_basic_input',), ()):
         for st_, k_, loose_ in local_memo_hazards(g_):
             n_lm += 1
             ck.ob('R-CACHE.local-memo', '%s|%s' % (g_.qual, norm(st_.targets[0])), False, g_.loc(st_),
                   'the value stored under `%s` is computed from `%s` itself (%s), not only from the key: the entry of the first '
                   'element is written for every later element with the same key' % (k_, loose_[0], norm(st_.value)[:60]))
-    ck.ob('R-CACHE.local-memo', 'package', True, 'mininec', 'local memo dictionaries keyed too coarsely: %d' % n_lm)
+    ck.ob('R-CACHE.local-memo', 'BASIC writers', True, 'mininec', 'local memo dictionaries keyed too coarsely in the BASIC writers: %d' % n_lm)
     # unit factors 10**(6 d) of the Laplace coefficients: exact Python integers, not wrapping numpy integers
     ck.rule('R-NUM.integer-power', 'a power of an integer literal is not taken with a numpy integer array as exponent (int64 wraps silently from 10**19)')
     n_pow = 0
